@@ -60,6 +60,10 @@ struct reader {
 	int id;
 };
 
+/* "hot" cases: all router keys sit under two (AS, SKI) pairs, the writer works almost only on keys and readers mostly
+ * look keys up - several writer steps on the very set a lookup returns fall inside one lookup */
+static int HOT;
+
 static void lin_universe(struct rng *r)
 {
 	uint32_t t4 = rnd32(r), t6[4] = {rnd32(r), rnd32(r), rnd32(r), rnd32(r)};
@@ -108,8 +112,8 @@ static void lin_universe(struct rng *r)
 	}
 	for (int i = 0; i < NU; i++) {
 		memset(&UK[i], 0, sizeof(UK[i]));
-		UK[i].asn = LASN[i % 3];
-		memcpy(UK[i].ski, LSKI[(i / 3) % 4], SKI_SIZE);
+		UK[i].asn = HOT ? LASN[i % 2] : LASN[i % 3];
+		memcpy(UK[i].ski, LSKI[HOT ? 0 : (i / 3) % 4], SKI_SIZE);
 		for (int b = 0; b < SPKI_SIZE; b++)
 			UK[i].spki[b] = (uint8_t)(i + b);
 		UKSRC[i] = (int)rndn(r, 3);
@@ -163,6 +167,8 @@ static void lin_plan(struct rng *r, int nops)
 		struct wop *w = &WOPS[WN];
 
 		w->arg = (uint8_t)rndn(r, NU);
+		if (HOT) /* 5 / 5 / 2 prefix operations, 43 / 41 / 4 key operations */
+			k = k < 5 ? 0 : k < 10 ? 34 : k < 12 ? 60 : k < 55 ? 64 : k < 96 ? 82 : 96;
 		if (k < 34) {
 			w->kind = W_PADD;
 			pm |= 1ULL << w->arg;
@@ -271,16 +277,69 @@ static void enum_cb(const struct pfx_record *rec, void *d)
 		e->mask |= 1ULL << ix;
 }
 
+/* Injected delay: the library allocates through the functions installed with lrtr_set_alloc_functions().  On reader
+ * threads one allocation in four spins for 2-40 microseconds before it returns - an allocation is what a lookup does
+ * between (or inside) its critical sections, so this is where a window between two lock holds would be.  Writers are
+ * never delayed. */
+static __thread uint32_t ALLOC_DELAY_RNG; /* 0 = this thread is not delayed */
+static uint64_t ALLOC_DELAYS;
+
+static void alloc_delay(void)
+{
+	struct timespec t0, t1;
+	uint32_t x = ALLOC_DELAY_RNG;
+	long ns;
+
+	if (!x)
+		return;
+	x ^= x << 13;
+	x ^= x >> 17;
+	x ^= x << 5;
+	ALLOC_DELAY_RNG = x ? x : 1;
+	if (x & 3)
+		return;
+	ns = 2000 + (long)((x >> 8) % 38000);
+	clock_gettime(CLOCK_MONOTONIC, &t0);
+	do {
+		clock_gettime(CLOCK_MONOTONIC, &t1);
+	} while ((t1.tv_sec - t0.tv_sec) * 1000000000L + (t1.tv_nsec - t0.tv_nsec) < ns);
+	__atomic_fetch_add(&ALLOC_DELAYS, 1, __ATOMIC_RELAXED);
+}
+
+static void *d_malloc(size_t n)
+{
+	void *p = malloc(n);
+
+	alloc_delay();
+	return p;
+}
+
+static void *d_realloc(void *o, size_t n)
+{
+	void *p = realloc(o, n);
+
+	alloc_delay();
+	return p;
+}
+
+static void d_free(void *p)
+{
+	free(p);
+}
+
 static void *reader_main(void *arg)
 {
 	struct reader *rd = arg;
 	struct pfx_record *reason = NULL;
 	unsigned int rlen = 0;
 
+	ALLOC_DELAY_RNG = (uint32_t)rnd32(&rd->rng) | 1;
 	while (!__atomic_load_n(&W_DONE, __ATOMIC_SEQ_CST) && rd->n < MAXLOG) {
 		struct rlog *l = &rd->log[rd->n];
 		uint32_t k = rndn(&rd->rng, 100);
 
+		if (HOT && k >= 20)
+			k = 65 + k % 35;
 		memset(l, 0, sizeof(*l));
 		l->lo = __atomic_load_n(&W_COMPLETED, __ATOMIC_SEQ_CST);
 		if (k < 50) {
@@ -328,8 +387,8 @@ static void *reader_main(void *arg)
 			unsigned int n = 0;
 			int rc;
 
-			l->a = (uint8_t)rndn(&rd->rng, 3);
-			l->b = (uint8_t)rndn(&rd->rng, 4);
+			l->a = (uint8_t)rndn(&rd->rng, HOT ? 2 : 3);
+			l->b = (uint8_t)(HOT && rndp(&rd->rng, 7, 8) ? 0 : rndn(&rd->rng, 4));
 			if (k < 85) {
 				l->kind = Q_GETALL;
 				rc = spki_table_get_all(rd->kt, LASN[l->a], LSKI[l->b], &res, &n);
@@ -422,12 +481,13 @@ static void run_lin_case(struct rng *r, long c, int nops, int light)
 	struct spki_table kt;
 	struct wctx wc = {&pt, &kt};
 	pthread_t wt;
-	int nr = 4 + (int)rndn(r, 9);
+	int nr = c % 3 == 2 ? 2 + (int)rndn(r, 4) : 4 + (int)rndn(r, 9);
 	struct reader *rd = calloc((size_t)nr, sizeof(*rd));
 	uint64_t hh = 0;
 	unsigned long overlapping = 0, total = 0;
 	int maxwin = 0;
 
+	HOT = c % 3 == 2;
 	lin_universe(r);
 	lin_plan(r, nops);
 	pfx_table_init(&pt, NULL);
@@ -477,6 +537,10 @@ static void run_lin_case(struct rng *r, long c, int nops, int light)
 	cnt_add("c16/reads_overlapping_a_write", overlapping);
 	cnt_add("c16/writer_ops", (uint64_t)WN);
 	cnt_max("max:c16/max_window", (uint64_t)maxwin);
+	if (HOT) {
+		CNT("c16/hot_key_cases");
+		cnt_max("max:c16/max_window_hot", (uint64_t)maxwin);
+	}
 	cnt_max("max:c16/readers", (uint64_t)nr);
 	if (overlapping)
 		nontrivial(hmix(hmix((uint64_t)c, overlapping), hh));
@@ -951,6 +1015,7 @@ int main(int argc, char **argv)
 	int nreaders = (int)argkv_l(argc, argv, "readers", 8);
 
 	vo_open(argv[5]);
+	lrtr_set_alloc_functions(d_malloc, d_realloc, d_free);
 	for (long c = from; c < to; c++) {
 		struct rng r;
 
@@ -964,6 +1029,7 @@ int main(int argc, char **argv)
 			return 2;
 		CNT("conc/runs");
 	}
+	cnt_add("conc/reader_allocations_delayed", ALLOC_DELAYS);
 	vo_close();
 	return 0;
 }
